@@ -29,6 +29,18 @@ def bridge_request(graph_proto, ir_version=None):
         return None
 
 
+def model_request(model_proto):
+    """the driver request `bridge.model` for a ModelProto, or None when C02's proto JSON cannot represent it"""
+    from . import c02
+
+    try:
+        return {"m": "bridge.model", "x": c02.r_model(model_proto)}
+    except c02.Unsupported:
+        return None
+    except RecursionError:
+        return None
+
+
 def _has_subgraph(gp: dict) -> bool:
     return any(n["g"] for n in gp["nodes"])
 
@@ -184,4 +196,85 @@ def diff_bridge(part, out: dict, case, p1, p3=None) -> None:
     else:
         part.count("bridge_abstractions_agree=False")
         part.disagree("bridge: absG of the C02 encoding differs from the C03 abstraction of the same proto: " + why,
+                      case, out["abs"], own)
+
+
+def diff_bridge_model(part, out: dict, case, p1, p3=None) -> None:
+    """`bridge.model`: the bridge for the whole ModelProto (main graph + functions): theorems C03_bridge_*_model with the
+    fragment sharedM = C02's wfModel at IR version >= 10, C03_bridge_*_model9 (experimental function value-info format,
+    deserializeM9 / serializeM9 true) with sharedM9 = wfModel + no experimental entry with an empty value name below it"""
+    if "err" in out and "shared" not in out:
+        part.count("bridge_model_driver_rejects=" + str(out["err"])[:40])
+        return
+    shared, shared_s = bool(out["shared"]), bool(out["sharedS"])
+    nf = len(p1.functions)
+    tag = ",functions" if nf else ""
+    tag += "" if p1.ir_version >= 10 else ",ir<10"
+    part.count(f"hyp_bridge_model_shared={shared}{tag}")
+    part.count(f"hyp_bridge_model_sharedS={shared_s}{tag}")
+    part.count(f"bridge_model_c02={out['c02']},scope={out['scope']}")
+    for k in ("gok", "des_agree", "ser_agree", "norm_agree"):
+        part.count(f"bridge_model_{k}={out[k]}" + ("" if p1.ir_version >= 10 else ",ir<10"))
+    sfx = "" if p1.ir_version >= 10 else "9"   # below IR version 10: deserializeM9 / serializeM9 true, C03_bridge_*_model9
+    if shared and out["des_agree"] is not True:
+        part.disagree(f"bridge: instance of C03_bridge_deserialize_model{sfx} evaluates to false", case, out["des_agree"], True)
+    if shared_s:
+        for k, thm in (("gok", "C03_bridge_gok_model"), ("ser_agree", "C03_bridge_serialize_model"),
+                       ("norm_agree", "C03_bridge_serde_model")):
+            if out[k] is not True:
+                part.disagree(f"bridge: instance of {thm}{sfx} evaluates to false", case, out[k], True)
+    if out["gok"] is True and out["des_agree"] is True and out["ser_agree"] is False:
+        part.disagree("bridge: GOKM holds and the worlds agree but the serializations differ "
+                      "(C03_bridge_serialize_model)", case, out["ser_agree"], True)
+    # C02's model of to_proto(from_proto(p1)) against the real one, whole model (IR < 10 format included)
+    if p3 is not None:
+        from . import c02
+
+        try:
+            real = c02.r_model(p3)
+        except (c02.Unsupported, RecursionError):
+            real = None
+        if real is not None:
+            if out.get("c02_ser") is None:
+                part.count("bridge_model_c02_raises_real_returns" + (",shared" if shared else ""))
+                if shared:
+                    part.disagree("bridge: C02's model raises on a model of the fragment that from_proto / to_proto accept",
+                                  case, "raised", "ok")
+            elif out["c02_ser"] == real:
+                part.count("bridge_model_c02_vs_real=True")
+            else:
+                part.count("bridge_model_c02_vs_real=False" + (",shared" if shared else ""))
+                if shared:
+                    part.disagree("bridge: C02's model of to_proto(from_proto(m)) differs from the real one on a model of "
+                                  "the fragment: " + _first_diff(out["c02_ser"], real)[:120], case, out["c02_ser"], real)
+    # the tie: absM of C02's encoding = the C03 harness's abstraction of the same ModelProto
+    try:
+        flags: dict = {}
+        own = sc.model_proto_to_model(p1, flags)
+    except sc.OutsideModel as e:
+        part.count(f"bridge_model_own_abstraction_outside={e.args[0][:30]}")
+        return
+    except RecursionError:
+        return
+    with_doc = not flags.get("vinfo_metadata")
+    bij = (_Bij(), _Bij(), _Bij(), _Bij())
+    why = same_up_to_tokens(own["p"], out["abs"]["p"], with_doc, bij)
+    if why is None:
+        fa, fb = own["funcs"], out["abs"]["funcs"]
+        if len(fa) != len(fb):
+            why = "number of functions differs"
+        for i, (f, g) in enumerate(zip(fa, fb)):
+            if why:
+                break
+            if f["id"] != g["id"] or f["inputs"] != g["inputs"] or f["outputs"] != g["outputs"]:
+                why = f"funcs[{i}]: identifier / inputs / outputs differ"
+                break
+            why = same_up_to_tokens({"inputs": [], "inits": [], "vinfo": f["vinfo"], "nodes": f["nodes"], "outputs": []},
+                                    {"inputs": [], "inits": [], "vinfo": g["vinfo"], "nodes": g["nodes"], "outputs": []},
+                                    with_doc, bij, f"funcs[{i}].")
+    if why is None:
+        part.count("bridge_model_abstractions_agree=True")
+    else:
+        part.count("bridge_model_abstractions_agree=False")
+        part.disagree("bridge: absM of the C02 encoding differs from the C03 abstraction of the same ModelProto: " + why,
                       case, out["abs"], own)
